@@ -48,7 +48,8 @@ EVENTS = [['none'], ['presence_down', 0], ['identity_groups', 'g', 1],
 
 # what happens between publication and the restart
 BETWEEN = ['nothing', 'stale_record_first', 'presence_restarted0',
-           'presence_gone0', 'record_shrunk0', 'blackedout0']
+           'presence_gone0', 'record_shrunk0', 'blackedout0',
+           'valid_until_pulled_in0']
 
 
 def subharnesses(tier):
@@ -73,6 +74,11 @@ def subharnesses(tier):
         spec = dict(store, nservers=2,
                     events=[['schedule', 2, {'traits': ['gpu']}]], between=bt)
         subs.append(('traits-schedule_gpu-%s' % bt, spec))
+    store = dict(_stores(tier))['lease']
+    for ev in (['none'], ['presence_down', 1]):
+        spec = dict(store, nservers=2, events=[ev],
+                    between='valid_until_pulled_in0')
+        subs.append(('lease-%s-valid_until_pulled_in0' % ev[0], spec))
     return subs
 
 
@@ -101,6 +107,11 @@ def harness(S, spec):
         for srv in ('s0', 's1'):
             b.seed('/placement/%s/proid.aaa#0000000009' % srv,
                    {'identity': None, 'expires': 1})
+    if bt == 'valid_until_pulled_in0':
+        # the reboot date recorded for the server now lies before the expiry
+        # of the leases placed on it (reboot schedule changed): the recorded
+        # placement is restored all the same
+        b.nodes['/server.presence/s0'][0] = {'valid_until': g2.NOW + 60}
     if bt == 'blackedout0':
         # the server is put on the blackout list; it still has its presence
         # and its instances (the running master would keep them there)
